@@ -79,13 +79,20 @@ func vfC13Gen(rt *rapid.T) vfC13Case {
 	used := map[uint32]bool{}
 	var live, removed, all []uint32
 	vecs := map[uint32][]float32{}
+	trainUsed := map[int]bool{}
 	opGen := rapid.Custom(func(rt *rapid.T) vfVecOp {
 		w := rapid.IntRange(0, 99).Draw(rt, "opclass")
 		switch {
 		case w < 45 || len(all) == 0:
 			var v []float32
+			trainRef := 0
 			if rapid.IntRange(0, 3).Draw(rt, "add_from_train") == 0 {
-				v = vfCloneF32(c.Train[rapid.IntRange(0, len(c.Train)-1).Draw(rt, "train_idx")])
+				ti := rapid.IntRange(0, len(c.Train)-1).Draw(rt, "train_idx")
+				v = vfCloneF32(c.Train[ti])
+				if !trainUsed[ti] && rapid.Bool().Draw(rt, "same_slice_as_train") {
+					trainUsed[ti] = true
+					trainRef = ti + 1
+				}
 			} else {
 				v = g.draw(rt, "v")
 			}
@@ -96,7 +103,7 @@ func vfC13Gen(rt *rapid.T) vfC13Case {
 			live = append(live, id)
 			all = append(all, id)
 			vecs[id] = v
-			return vfVecOp{Op: "add", ID: id, Vec: v}
+			return vfVecOp{Op: "add", ID: id, Vec: v, TrainRef: trainRef}
 		case w < 58:
 			var id uint32
 			switch r := rapid.IntRange(0, 9).Draw(rt, "rmclass"); {
@@ -112,6 +119,21 @@ func vfC13Gen(rt *rapid.T) vfC13Case {
 			}
 			return vfVecOp{Op: "remove", ID: id, Vec: vfGenRemovePayload(rt, g)}
 		case w < 65:
+			if len(live) >= 3 && rapid.IntRange(0, 2).Draw(rt, "purge") == 0 {
+				// several removals at once, then a flush: the compaction sees many tombstones
+				op := vfVecOp{Op: "purge"}
+				var keep []uint32
+				for _, id := range live {
+					if rapid.Bool().Draw(rt, "purge_this") {
+						op.IDs = append(op.IDs, id)
+						removed = append(removed, id)
+					} else {
+						keep = append(keep, id)
+					}
+				}
+				live = keep
+				return op
+			}
 			return vfVecOp{Op: "flush"}
 		default:
 			var q []float32
@@ -245,8 +267,58 @@ func vfC13Run(c vfC13Case, ctx *vfCtx) *vfViolation {
 	}
 	dist := vfIVFDistance(idx)
 	m := vfNewVecModel(kind)
+	// the placement clause for EVERY live vector, against the centroids as they are now: exactly one
+	// list, the list of a nearest centroid; nothing unknown in any list; centroids fixed since Train
+	verifyAll := func(when string) *vfViolation {
+		now := vfIVFCentroids(idx)
+		for ci := range cents {
+			if !vfBitsEqual(now[ci], cents[ci]) {
+				return vfFail("%s: centroid %d changed after training without another Train (%v -> %v)", when, ci, cents[ci], now[ci])
+			}
+		}
+		where := map[uint32]int{}
+		for li, l := range vfIVFLists(idx) {
+			for _, id := range l {
+				if _, live := m.live[id]; !live && !m.resident[id] {
+					return vfFail("%s: list %d holds id %d, which is neither live nor awaiting a flush", when, li, id)
+				}
+				if prev, dup := where[id]; dup {
+					return vfFail("%s: id %d is stored in lists %d and %d", when, id, prev, li)
+				}
+				where[id] = li
+			}
+		}
+		for id := range m.live {
+			li, ok := where[id]
+			if !ok {
+				return vfFail("%s: live id %d is in no inverted list", when, id)
+			}
+			st := vfIVFStored(idx, id)
+			own := dist.Calculate(st, now[li])
+			for ci := range now {
+				if d := dist.Calculate(st, now[ci]); d < own {
+					return vfFail("%s: id %d sits in cluster %d (centroid distance %v) but centroid %d is nearer (%v)", when, id, li, own, ci, d)
+				}
+			}
+		}
+		return nil
+	}
 
 	for i, op := range c.Ops {
+		if op.Op == "purge" {
+			for _, id := range op.IDs {
+				if _, isLive := m.live[id]; !isLive {
+					continue
+				}
+				if err := idx.Remove(*NewVectorNodeWithID(id, nil)); err != nil {
+					return vfFail("op %d: Remove(%d) of a live vector failed: %v", i, id, err)
+				}
+				delete(m.live, id)
+				m.resident[id] = true
+			}
+			ctx.Class("purge(several removals, then flush)")
+			op.Op = "flush"
+		}
 		switch op.Op {
 		case "add":
 			if kind == Cosine && vfIsZero(op.Vec) || len(op.Vec) != c.Dim {
@@ -255,7 +327,13 @@ func vfC13Run(c vfC13Case, ctx *vfCtx) *vfViolation {
 			if _, dup := m.live[op.ID]; dup || m.resident[op.ID] || op.ID == 0 {
 				continue
 			}
-			if err := idx.Add(*NewVectorNodeWithID(op.ID, vfCloneF32(op.Vec))); err != nil {
+			payload := vfCloneF32(op.Vec)
+			if op.TrainRef > 0 && op.TrainRef <= len(train) && vfBitsEqual(train[op.TrainRef-1].Vector(), op.Vec) {
+				// the caller re-uses the slice it trained with (the library may normalise it in place)
+				payload = train[op.TrainRef-1].Vector()
+				ctx.Class("add_of_the_slice_handed_to_Train")
+			}
+			if err := idx.Add(*NewVectorNodeWithID(op.ID, payload)); err != nil {
 				return vfFail("op %d: Add(%d): %v", i, op.ID, err)
 			}
 			m.live[op.ID] = op.Vec
@@ -303,6 +381,9 @@ func vfC13Run(c vfC13Case, ctx *vfCtx) *vfViolation {
 				return vfFail("op %d: Flush: %v", i, err)
 			}
 			m.resident = map[uint32]bool{}
+			if v := verifyAll(fmt.Sprintf("op %d (after Flush)", i)); v != nil {
+				return v
+			}
 		case "search":
 			if len(op.Vec) != c.Dim || kind == Cosine && vfIsZero(op.Vec) {
 				continue
@@ -457,7 +538,7 @@ func vfC13Run(c vfC13Case, ctx *vfCtx) *vfViolation {
 			}
 		}
 	}
-	return nil
+	return verifyAll("end of the history")
 }
 
 func TestVerif_C13(t *testing.T) { vfCheck(t, "C13", vfC13Gen, vfC13Run) }
